@@ -139,30 +139,13 @@ class MinSumLDPCDecoder(BeliefPropagationDecoder):
                 vc_extended = vc.unsqueeze(1).repeat_interleave(deg * members, dim=1)
                 vc_group_messages = vc_extended.gather(2, ext_ce)
 
-                # Min-Sum check node operation
-                # 1. Extract signs and magnitudes
+                # Each gathered row already holds the messages of the OTHER edges of the check node (extrinsic set):
+                # the outgoing message is the product of their signs times their minimum magnitude.
                 signs = torch.sign(vc_group_messages)
                 magnitudes = torch.abs(vc_group_messages)
-
-                # 2. Compute output signs (XOR of input signs)
-                sign_product = torch.prod(signs, dim=2, keepdim=True)
-                output_signs = sign_product * signs  # Extrinsic sign
-
-                # 3. Compute output magnitudes (min of input magnitudes)
-                # For each output, take min over all other inputs (extrinsic minimum)
-                min_magnitudes = torch.zeros_like(vc_group_messages)
-                for i in range(vc_group_messages.size(2)):
-                    # Create mask to exclude current position
-                    mask = torch.ones_like(vc_group_messages, dtype=torch.bool)
-                    mask[:, :, i] = False
-
-                    # Find minimum over other positions
-                    other_magnitudes = magnitudes.masked_select(mask).view(batch_size, deg * members, -1)
-                    min_vals, _ = torch.min(other_magnitudes, dim=2)
-                    min_magnitudes[:, :, i] = min_vals
-
-                # 4. Combine signs and magnitudes
-                v_messages = output_signs * min_magnitudes
+                sign_product = torch.prod(signs, dim=2)
+                min_magnitudes, _ = torch.min(magnitudes, dim=2)
+                v_messages = sign_product * min_magnitudes
 
                 # 5. Apply scaling factor and offset (for improved Min-Sum variants)
                 if self.scaling_factor != 1.0:
